@@ -230,7 +230,7 @@ pub fn run_program(b: &Value, id: u64) -> RunOut {
                 let mut res: Vec<(u32, Value)> = Vec::new();
                 cache.verif_visit_entries(|k, v, meta| {
                     let tk = |t: Option<std::time::Instant>| t.map(|t| t.duration_since(base).as_secs() as i64).unwrap_or(-1);
-                    res.push((k.id, json!({"k": k.id, "v": v.id, "w": meta.weight, "adm": meta.admitted, "dirty": meta.dirty,
+                    res.push((k.id, json!({"k": k.id, "v": v.id, "w": meta.weight, "tw": if cfg.weigher { v.w } else { 1 }, "adm": meta.admitted, "dirty": meta.dirty,
                         "la": tk(meta.last_accessed), "lm": tk(meta.last_modified)})));
                 });
                 res.sort_by_key(|x| x.0);
